@@ -402,3 +402,23 @@ def check_function(cx, name, rule='TERM', expect_loops=None, where=None):
         sp = Site(b, hb, 0, 'loop', t if isinstance(t, dict) and 'sp' in t else (b.blocks[hb]['stmts'][0] if b.blocks[hb]['stmts'] else {})).span
         cx.ob(rule, f'{name}:loop{i}', idiom is not None,
               f'{name} loop#{i}: {idiom or "UNPROVEN-TERMINATION"} - {why}', where=sp, found=None if idiom else why)
+
+
+def exhaustive_loops(cx, b):
+    """every natural loop of b is left only through the `None` edge of its own iterator: no break, no early return, no `?` inside
+    -> (ok, [reasons])"""
+    from . import guards as G
+    from .core import simplify
+    why = []
+    for (h, blocks, backs) in b.loops():
+        for u in blocks:
+            for v in b.succ[u]:
+                if v in blocks:
+                    continue
+                if b.blocks[v]['term']['k'] == 'unreachable':
+                    continue
+                lits = G.edge_literals(b, u).get(v, [])
+                if any(pol and a[0] == 'is' and a[2] == 'None' and a[1][0] == 'call' and a[1][1].endswith('::next') for a, pol in lits):
+                    continue
+                why.append(f'loop at bb{h} can be left from bb{u} (line {b.blocks[u].get("span", "?")}) other than by exhausting its iterator')
+    return (not why), why
